@@ -73,6 +73,16 @@ NEEDS = {
  'C18-D': ('automatic limit check skipped when a check hook is inherited', 'check hook in an ancestor, limits in a subclass', 'strengthened: hook-in-ancestor layout added'),
  'C20-C': ('rotation sorts by modification time', 'an old log file touched recently', 'caught at once'),
  'C20-D': ('connection reset only if it was generally activated', 'logging enabled without activate, then disconnect', 'caught at once'),
+ 'C05-E': ('callbacks and broadcast moved out of the update lock', 'two threads: T1 stored 1.0 and left the lock, pre-empted at the send; T2 assigns 2.0 and is delivered first', 'caught at once by C05_races (symbolic schedule)'),
+ 'C05-F': ('activate registers the connection after the snapshot', 'activation pre-empted during the snapshot while a poller thread reads a new value / an error / a recovery', 'strengthened: activation as a racing thread operation added to C05_races'),
+ 'C07-E': ('send lock guards only the running test, sendall outside', 'connection thread pre-empted inside sendall, poller thread broadcasts an update to the same connection', 'caught at once by C07_races'),
+ 'C07-F': ('broadcast iterates the live set of active connections', 'a connection closes (remove_connection) while another thread is inside the broadcast loop', 'caught at once by C07_races (exception in the broadcasting thread)'),
+ 'C08-E': ('activate registers the connection after the snapshot loop', 'driver update between the snapshot of its module and the registration', 'caught at once by C08_races'),
+ 'C08-F': ('dispatcher notification moved out of the update lock', 'two announcers, or an announcer and an activation, interleaved between store and send', 'caught at once by C08_races'),
+ 'C11-E': ('transmit thread registers the request after sending it', 'reply arrives between send and registration', 'caught at once by C11_races (real tx/rx threads under a symbolic schedule)'),
+ 'C11-F': ('connect() tests self.io before taking the lock', 'two callers run into connect() of an unconnected client at once', 'strengthened: fresh-connect scenario (real connect() over a fake AsynConn) added to C11_races'),
+ 'C16-E': ('wait_before sleep and garbage flush moved out of the communicator lock', 'caller B flushes while caller A waits for the rest of its reply', 'caught at once by C16_races'),
+ 'C16-F': ('reconnect time stamp set after the attempt', 'two callers arrive while disconnected and the interval has elapsed; the first attempt is refused', 'strengthened: reconnect race scenario added to C16_races'),
 }
 
 
